@@ -75,6 +75,7 @@ func (w *World) RunTasks(reqs [][]*Req, cfg sched.Config, res *eng.Result) *sche
 	res.Steps, res.Ticks, res.Switches = sr.Steps, sr.Ticks, sr.Switches
 	res.SchedHash, res.SwitchHash, res.SwitchPairs, res.Sites = sr.SchedHash, sr.SwitchHash, sr.SwitchPairs, sr.SiteHits
 	res.Blocked = sr.BlockedHandovers
+	res.Faults["stalled-task"] += sr.Stalls
 	for st, n := range sr.BlockedStates {
 		res.Probes["blocked_outside_in_state:"+st] += n
 	}
